@@ -1,6 +1,7 @@
 (* C14 - skip_brute and all_lower are pure restrictions.  Theorems only. *)
 From Coq Require Import List Bool NArith.
-From Pcfg Require Import Expand ExpandCorr Loader.
+From Coq Require Import QArith Sorting.Permutation.
+From Pcfg Require Import Expand ExpandCorr Loader ProbAlg Next NextSpec NextProofs QProb QSum QStream.
 From PcfgGen Require Import Consts_gen.
 
 (* side conditions on facts re-extracted from the source on every run *)
@@ -38,5 +39,33 @@ Proof. exact flags_from_save. Qed.
 Theorem C14_refuted_flags : flags_used_on_load false (false, false) (true, true) <> (true, true).
 Proof. exact flags_refuted_cmdline. Qed.
 
+(* the stream-level statement, over exact rationals: with the base list
+   restricted by [keepb] (not the Markov structure) and rescaled by c > 0
+   (c = 1/(1-P(M))), the run of the restricted grammar is, item by item, the kept
+   part of the default run with probabilities multiplied by c - in the same
+   order up to permutations inside classes of equal probability (for any two
+   heaps meeting the contract) ... *)
+Theorem C14_stream_Q :
+  forall (rs : Qruleset), wf rs -> forall (keepb : Qbstruct -> bool) (c : Q), (0 < c)%Q ->
+  forall pop pop', pop_ok_okb pop -> pop_ok_okb pop' ->
+  let out := rev (emitted (run pop rs (total rs) (start rs))) in
+  let out' := rev (emitted (run pop' (rescaled rs keepb c) (total (rescaled rs keepb c)) (start (rescaled rs keepb c)))) in
+  exists l, Permutation l (filter (keep_item rs keepb) out) /\ nonincreasing l /\
+            nonincreasing (filter (keep_item rs keepb) out) /\ Forall2 (Rel c) out' l.
+Proof. exact C14_stream_Q. Qed.
+
+(* ... and in exactly the same order when no two kept pre-terminals tie *)
+Theorem C14_stream_Q_no_ties :
+  forall (rs : Qruleset), wf rs -> forall (keepb : Qbstruct -> bool) (c : Q), (0 < c)%Q ->
+  forall pop pop', pop_ok_okb pop -> pop_ok_okb pop' ->
+  (forall x y, In x (filter (keep_item rs keepb) (all_preterminals rs)) ->
+               In y (filter (keep_item rs keepb) (all_preterminals rs)) -> (iprob x == iprob y)%Q -> x = y) ->
+  let out := rev (emitted (run pop rs (total rs) (start rs))) in
+  let out' := rev (emitted (run pop' (rescaled rs keepb c) (total (rescaled rs keepb c)) (start (rescaled rs keepb c)))) in
+  Forall2 (Rel c) out' (filter (keep_item rs keepb) out) /\
+  map ipt out' = map ipt (filter (keep_item rs keepb) out).
+Proof. exact C14_stream_Q_no_ties. Qed.
+
 Print Assumptions C14_bases_with_markov.
+Print Assumptions C14_stream_Q.
 Print Assumptions C14_bases_without_markov.
